@@ -3,8 +3,8 @@
    start_import / finish_import do to it.  Faithful to the code, oddities included:
      - `handling_exception` is cleared at the START of execute (commit 8f090ae), so it is stale BETWEEN runs;
      - execute drops the old fiber and creates a new one; runtime_error -> reset_stack closes the upvalues and clears
-       `stack` and `frames` of the ACTIVE fiber only, leaving its exc_handlers / return_ip / error_ip; the fibers
-       waiting for it get their upvalues closed (309b782) and are otherwise left as they are;
+       `stack` and `frames` of the active fiber and of every fiber waiting for it (fef17f0, 309b782, 6d7d827), leaving
+       exc_handlers / return_ip / error_ip of the dead fibers;
      - `working_class_def` is set by DeclareClass and taken by DefineClass; an error in between leaves it set;
      - a module is registered in `modules` BEFORE its body runs and gets `imported = true` only by FinishImport;
        start_import answers a registered, not yet imported module with the "Circular dependency" ImportError;
@@ -70,7 +70,7 @@ Inductive gval :=
 | VFn (g : idx)                      (* fn f() { return g<g> + 1; } *)
 | VClass (z : Z)                     (* class with method m returning z *)
 | VClosure (z : Z)                   (* || x with x = z *)
-| VFiber (left_called : bool)        (* a fiber that is not running; left_called: its `caller` link is still set *)
+| VFiber                             (* a fiber that is not running *)
 | VMod (m : modk).
 
 Definition modk_eqb (a b : modk) : bool :=
@@ -133,9 +133,6 @@ Definition mset (k : modk) (b : bool) (r : modreg) : modreg :=
   end.
 Definition gempty : globals := mkG None None None None None None None None None None None None None.
 Definition mempty : modreg := mkR None None None None None.
-Definition gmap (f : option gval -> option gval) (g : globals) : globals :=
-  mkG (f (g_v0 g)) (f (g_v1 g)) (f (g_f0 g)) (f (g_f1 g)) (f (g_c0 g)) (f (g_c1 g)) (f (g_leak g)) (f (g_fib g)) (f (g_mg g)) (f (g_mb g)) (f (g_mm g)) (f (g_ms g)) (f (g_mn g)).
-
 Record handler := mkH { h_catch : bool; h_frames : nat }.
 Record fiber := mkFiber {
   fb_frames : nat;
@@ -213,27 +210,18 @@ Definition m_add_chunks (n : nat) (c : carried) : carried := with_chunks (c_chun
    new closure, new fiber, load_fiber (caller of the new fiber := the old self.fiber = None) *)
 Definition m_execute_start (c : carried) : carried := with_fibers [fresh_fiber] (with_he false c).
 
-(* reset_stack: close_upvalues(0) on every fiber waiting for the active one (commit 309b782) and on the active
-   fiber (fef17f0); stack.clear(), frames.clear() of the ACTIVE fiber only *)
+(* reset_stack: the active fiber and every fiber waiting for it (caller chain, commits 309b782 / 6d7d827) get
+   close_upvalues(0), stack.clear(), frames.clear(); the `caller` links are taken *)
 Definition clear_fiber (f : fiber) : fiber :=
   mkFiber 0 0 (fb_handlers f) (fb_retpend f) (fb_errip f) false.
-Definition close_upv (f : fiber) : fiber :=
-  mkFiber (fb_frames f) (fb_stack f) (fb_handlers f) (fb_retpend f) (fb_errip f) false.
 Definition m_reset_stack (c : carried) : carried :=
   match c_fibers c with
   | [] => c
-  | f :: r => with_fibers (clear_fiber f :: map close_upv r) c
+  | f :: r => with_fibers (clear_fiber f :: map clear_fiber r) c
   end.
 
-(* runtime_error: store_error_ip_or, trace, reset_stack.  The fibers BETWEEN the failing fiber and the run's own
-   fiber keep their frames and their `caller` link: a global holding one of them (fw) is left neither finished
-   nor callable. *)
-Definition mark_left_called (g : globals) : globals :=
-  gmap (fun v => match v with Some (VFiber _) => Some (VFiber true) | _ => v end) g.
-Definition chain_waiting (l : list fiber) : bool := Nat.leb 3 (List.length l).
-Definition m_runtime_error (c : carried) : carried :=
-  let c1 := m_reset_stack c in
-  if chain_waiting (c_fibers c) then with_globals (mark_left_called (c_globals c1)) c1 else c1.
+(* runtime_error: store_error_ip_or, trace, reset_stack *)
+Definition m_runtime_error (c : carried) : carried := m_reset_stack c.
 
 (* the final Return of the script: its frame is popped, its slot truncated *)
 Definition m_run_ok (c : carried) : carried :=
@@ -429,7 +417,7 @@ Definition step (i : instr) (s : mstate) : mstate * list instr :=
       end
   | IUseFiber =>
       match gget GFib (c_globals c) with
-      | Some (VFiber lc) => (ms_print (if lc then "false" else "true") s, [])
+      | Some VFiber => (ms_print "true" s, [])
       | _ => (m_raise KName (name_error "fw") s, [])
       end
   | IRange k => (ms_with_c (m_build_range k c) s, [])
@@ -491,7 +479,7 @@ Definition code_where (w : where_) : list instr :=
   | WCapture => [ICall; ICapture 41; IThrow 1]
   | WBuiltin => [IPush false; IBuiltinErr KAttr attr_msg; IOut "nf"; IEndFinally true]
   | WCaptureFiber => [ICall; ICapture 41; IFiberEnter; IThrow 1]
-  | WFiberWait => [IDefG GFib (VFiber false); IFiberEnter; IFiberEnter; IThrow 1]
+  | WFiberWait => [IDefG GFib VFiber; IFiberEnter; IFiberEnter; IThrow 1]
   end.
 
 Definition code_of (s : snip) : list instr :=
